@@ -54,6 +54,7 @@ static std::string handle(const std::vector<std::string>& a) {
     int fmt = std::stoi(a[1]);
     JsonDocument doc;
     DumpParser p(a[2]);
+    if (fmt != 2) p.nanVariant = int(a[2].size() % 4);     // JSON text does not carry a NaN's sign or payload (MessagePack does: canonical there)
     if (!p.build(doc.to<JsonVariant>())) return "bad-dump";
     JsonVariantConst v = doc.as<JsonVariantConst>();
     std::string s1; size_t n1 = ser_to(fmt, v, s1);
